@@ -225,11 +225,23 @@ def implied_refusal(facts, pm, rl, role, key, site):
 
 THOROUGH_FS = ["pt", "none", "serde"]
 
+def rule_build_frame(ctx):
+    """The parser hands its sinks to build(): the components reported are the parsed ones only if build() and the type's
+    finish hook change nothing but what the property allows (the type's own name rule, empty qualifiers, checksum form)."""
+    from .common import build_frame_obligations
+    build_frame_obligations(ctx, "BUILD-FRAME")
+    if "package_type::PackageType" in ctx.facts().adts:
+        from . import C08
+        C08.rule_frame(ctx)
+
+
 RULES = [
     ("GRAMMAR", lambda ctx: (rule_grammar(ctx), rule_segments(ctx), rule_qloop(ctx)), 23),
     ("DECODE-ALL", lambda ctx: None, 7),
     ("ALPHABET", rule_alphabet, 2),
     ("REJECT-COMPLETE", rule_reject_complete, 20),
+    ("BUILD-FRAME", rule_build_frame, 4),
+    ("FRAME", lambda ctx: None, 3),
 ]
 
 MANIFEST = {
